@@ -70,24 +70,7 @@ func c11Rules(p *core.Prog, r *core.Run) {
 	// what the encoders return is what their builder holds: no way out hands
 	// back something else (nothing, for an empty list, say) as a success
 	for _, fn := range []*ssa.Function{list, bytesFn} {
-		for i, ret := range core.Returns(fn) {
-			if len(ret.Results) != 2 {
-				continue
-			}
-			v := p.X(ret.Results[0])
-			fromBuilder := v.Op == "ext" && v.Name == "#0" && v.Args[0].Op == "call" && v.Args[0].Name == "(*cryptobyte.Builder).Bytes"
-			failed := !lastResultNil(ret)
-			if ee := p.X(retErr(ret)); failed && ee.Op == "ext" {
-				// the builder's own error, handed on: only when it was seen to be non-nil
-				failed = false
-				for _, f := range p.Facts(ret.Block()) {
-					if f.Op == "!=" && f.R != nil && f.R.Name == "nil" && f.L.String() == ee.String() {
-						failed = true
-					}
-				}
-			}
-			r.Check("C11.GRAMMAR", fmt.Sprintf("%s:returns-encoding#%d", p.FuncName(fn), i), fromBuilder || failed, p.InstrPos(ret), "%s returns its builder's bytes, or an error: %s", p.FuncName(fn), short(v))
-		}
+		returnsEncoding(p, r, "C11.GRAMMAR", fn)
 	}
 	// parser of the list
 	var root ssa.Value
@@ -124,6 +107,7 @@ func c11Rules(p *core.Prog, r *core.Run) {
 	// caller in the same loop iteration as the call), never carried over from the
 	// previous config of a list
 	nAcc := 0
+	accSeen := map[*ssa.Call]bool{}
 	for _, b := range parse.Blocks {
 		for _, in := range b.Instrs {
 			st, ok := in.(*ssa.Store)
@@ -141,6 +125,31 @@ func c11Rules(p *core.Prog, r *core.Run) {
 				v := p.X(st.Val)
 				selfAppend := v.Op == "call" && v.Name == "append" && len(v.Args) >= 1 && v.Args[0].Op == "field" && v.Args[0].Obj == fieldVar(fa)
 				okInit := isNilConst(st.Val) || selfAppend || v.Op == "new" && v.Name != ""
+				// (a local list grown from nothing and handed over when complete)
+				localAcc := false
+				if v.Op == "phi" || v.Op == "cell" {
+					localAcc = true
+					var expand func(e *core.Expr, depth int)
+					expand = func(e *core.Expr, depth int) {
+						if e == nil || depth > 8 {
+							localAcc = false
+							return
+						}
+						switch {
+						case e.Op == "phi" || e.Op == "cell":
+							for _, a := range e.Args {
+								expand(a, depth+1)
+							}
+						case e.Op == "call" && e.Name == "append" && len(e.Args) > 0:
+							expand(e.Args[0], depth+1)
+						case e.Op == "const" || e.Op == "rec":
+						default:
+							localAcc = false
+						}
+					}
+					expand(v, 0)
+					okInit = okInit || localAcc
+				}
 				if !selfAppend && v.Any(func(e *core.Expr) bool { return e.Op == "param" && e.Name != "p0" }) {
 					okInit = false
 				}
@@ -181,11 +190,27 @@ func c11Rules(p *core.Prog, r *core.Run) {
 			}
 			c, ok := st.Val.(*ssa.Call)
 			if !ok {
-				continue
+				// the list may be grown in a local variable first
+				if ph, isPhi := st.Val.(*ssa.Phi); isPhi && fieldVar(fa) != nil && fieldVar(fa).Name() == "CipherSuites" {
+					for _, e := range ph.Edges {
+						if ec, isCall := e.(*ssa.Call); isCall {
+							if bi, isB := ec.Call.Value.(*ssa.Builtin); isB && bi.Name() == "append" {
+								c, ok = ec, true
+							}
+						}
+					}
+				}
+				if !ok {
+					continue
+				}
 			}
 			if bi, ok := c.Call.Value.(*ssa.Builtin); !ok || bi.Name() != "append" {
 				continue
 			}
+			if accSeen[c] {
+				continue // the same list handed over on another way out
+			}
+			accSeen[c] = true
 			nAcc++
 			fresh, why := false, ""
 			switch base := fa.X.(type) {
@@ -361,6 +386,106 @@ func c11Rules(p *core.Prog, r *core.Run) {
 	r.Floors["C11.SAFE.reads"] = 10
 	indexSafetyWith(p, r, "C11.SAFE.index", all, 0, nil)
 	loopRules(p, r, "C11.SAFE.loops", all, nil)
+	c11SpecViews(p, r, "C11.VIEWS")
 	// the list loop consumes: parseConfig reads at least the version on success
 	r.Check("C11.SAFE.loops", "parseConfig:consumes", consumesOnSuccess(p, parse), p.Pos(parse.Pos()), "every successful parseConfig has performed a successful fixed-size read, so the list loop makes progress")
+}
+
+// c11SpecViews: what Config.Spec hands out (PublicName, PublicKey) are views
+// into the Config's own bytes, with the rest of the Config behind them as
+// spare capacity. Nothing in the package may work in place on such a view, or
+// append to it without limiting its capacity: that would rewrite the caller's
+// Config, which would then no longer be the structure NewConfig produced.
+func c11SpecViews(p *core.Prog, r *core.Run, rule string) {
+	isSpec := func(e *core.Expr) bool {
+		return e.Op == "call" && (strings.HasSuffix(e.Name, ").Spec") || strings.HasSuffix(e.Name, ".parseConfig"))
+	}
+	var view func(e *core.Expr, depth int) bool
+	view = func(e *core.Expr, depth int) bool {
+		if e == nil || depth > 12 {
+			return false
+		}
+		switch e.Op {
+		case "field":
+			return e.Args[0].Any(isSpec)
+		case "slice", "conv":
+			return view(e.Args[0], depth+1)
+		case "phi", "cell":
+			for _, a := range e.Args {
+				if view(a, depth+1) {
+					return true
+				}
+			}
+		case "call":
+			if e.Name == "append" && len(e.Args) > 0 {
+				return view(e.Args[0], depth+1)
+			}
+		}
+		return false
+	}
+	fns := p.PkgFuncs(Ech)
+	nBad, nViews := 0, 0
+	specPos := ""
+	if f := p.Func(Ech, "(Config).Spec"); f != nil {
+		specPos = p.Pos(f.Pos())
+	}
+	for _, s := range allCalls(p, fns) {
+		if len(s.X.Args) == 0 {
+			continue
+		}
+		for _, a := range s.X.Args {
+			if view(a, 0) {
+				nViews++
+				break
+			}
+		}
+		if !matches(`append|sort\.(Slice|SliceStable|Sort|Stable)|slices\.(Sort.*|Reverse|DeleteFunc|Delete|Compact.*|Insert|Replace|Grow)|copy|clear`, s.X.Name) || !view(s.X.Args[0], 0) {
+			continue
+		}
+		if s.X.Name == "append" {
+			if sl, ok := s.Instr.Common().Args[0].(*ssa.Slice); ok && sl.Max != nil {
+				continue
+			}
+		}
+		nBad++
+		r.Check(rule, fmt.Sprintf("spec-view:in-place#%d", nBad), false, p.InstrPos(s.Instr), "%s works in place on a view Config.Spec handed out (%s): it writes into the caller's Config", s.X.Name, short(s.X.Args[0]))
+	}
+	for _, fn := range fns {
+		for _, b := range fn.Blocks {
+			for _, in := range b.Instrs {
+				st, ok := in.(*ssa.Store)
+				if !ok {
+					continue
+				}
+				if ia, ok := st.Addr.(*ssa.IndexAddr); ok && view(p.X(ia.X), 0) {
+					nBad++
+					r.Check(rule, fmt.Sprintf("spec-view:in-place#%d", nBad), false, p.InstrPos(st), "element store into a view Config.Spec handed out (%s): it writes into the caller's Config", short(p.X(ia.X)))
+				}
+			}
+		}
+	}
+	r.Check(rule, "spec-view:read-only", nBad == 0 && nViews >= 1, specPos, "no in-place operation on the byte views of a parsed Config (%d found; %d uses of such views examined)", nBad, nViews)
+}
+
+// returnsEncoding: an encoder hands back exactly what its builder produced,
+// or an error; nothing reworks the bytes between the builder and the caller.
+func returnsEncoding(p *core.Prog, r *core.Run, rule string, fn *ssa.Function) {
+	for i, ret := range core.Returns(fn) {
+		if len(ret.Results) != 2 {
+			continue
+		}
+		v := p.X(ret.Results[0])
+		fromBuilder := v.Op == "ext" && v.Name == "#0" && v.Args[0].Op == "call" && v.Args[0].Name == "(*cryptobyte.Builder).Bytes"
+		failed := !lastResultNil(ret)
+		if ee := p.X(retErr(ret)); failed && ee.Op == "ext" {
+			// the builder's own error, handed on: only when it was seen to be non-nil
+			failed = false
+			for _, f := range p.Facts(ret.Block()) {
+				if f.Op == "!=" && f.R != nil && f.R.Name == "nil" && f.L.String() == ee.String() {
+					failed = true
+				}
+			}
+		}
+		r.Check(rule, fmt.Sprintf("%s:returns-encoding#%d", p.FuncName(fn), i), fromBuilder || failed, p.InstrPos(ret), "%s returns its builder's bytes, or an error: %s", p.FuncName(fn), short(v))
+	}
 }
